@@ -71,7 +71,8 @@ def crash_pairs(prog: dict, pairs: list[tuple[int, int]]) -> list[dict]:
 
 def schedule(prog: dict, seed: int, p_withhold: float = 0.15, p_sweep: float = 0.0, max_sweeps: int = 0,
              cancel_at: int = -1, early: int = 0, max_steps: int = 600, fifo_after: int = -1,
-             signal_at: int = -1, signal_pers: bool = True, signals: int = 1, claim_sweep: bool = False) -> dict:
+             signal_at: int = -1, signal_pers: bool = True, signals: int = 1, claim_sweep: bool = False,
+             region_at: int = -1, region: str = "r") -> dict:
     """One seeded random delivery schedule: any visible message next, acks withheld with probability
     p_withhold (redelivered after a lock expiry), optional sweeps / cancel / spurious StartStage."""
     rng = random.Random(seed)
@@ -85,6 +86,8 @@ def schedule(prog: dict, seed: int, p_withhold: float = 0.15, p_sweep: float = 0
             step += 1
             if cancel_at == step:
                 run.send_cancel()
+            if region_at == step:
+                run.send_cancel_region(region)
             if signal_at == step:
                 for tgt in signal_targets(prog):
                     for _i in range(signals):
@@ -130,7 +133,7 @@ def schedule(prog: dict, seed: int, p_withhold: float = 0.15, p_sweep: float = 0
                              "opts": {"p_withhold": p_withhold, "p_sweep": p_sweep, "max_sweeps": max_sweeps,
                                       "cancel_at": cancel_at, "early": early, "max_steps": max_steps,
                                       "fifo_after": fifo_after, "signal_at": signal_at, "signal_pers": signal_pers,
-                                      "signals": signals, "claim_sweep": claim_sweep}})
+                                      "signals": signals, "claim_sweep": claim_sweep, "region_at": region_at, "region": region}})
     finally:
         run.close()
 
@@ -158,6 +161,8 @@ def fifo_with_injection(prog: dict, at_step: int, what: str, times: int = 1) -> 
                             run.sweep()
                         elif what == "cancel":
                             run.send_cancel()
+                        elif what.startswith("region:"):
+                            run.send_cancel_region(what[7:])
             r = run.step_fifo()
             if r in ("empty", "locked"):
                 break
